@@ -13,7 +13,7 @@ import (
 
 func randomBytes(n int) []byte {
 	rv := make([]byte, n)
-	if _, err := saml.RandReader.Read(rv); err != nil {
+	if _, err := io.ReadFull(saml.RandReader, rv); err != nil {
 		panic(err)
 	}
 	return rv
